@@ -169,6 +169,8 @@ func c06Success(c *Ctx, cs *Case, f, merged model.Forest, doc, fkey string, ei i
 	target, prefix, allowed := c06Target(j, st)
 	before := j.Snap()
 	opts := fsOpts(target, exts, ei != 0, false, false, false)
+	stray, strayName := strayOptions("mkdir", int(cs.Seed%7)+ei+st)
+	opts = append(opts, stray...)
 	var outs []Outcome
 	call := func() {
 		if rt.FromRoot {
@@ -189,7 +191,7 @@ func c06Success(c *Ctx, cs *Case, f, merged model.Forest, doc, fkey string, ei i
 	}
 	after := j.Snap()
 	cs.Entry = rt.Name
-	cs.Opt = map[string]string{"ext": strconv.Itoa(ei), "state": strconv.Itoa(st)}
+	cs.Opt = map[string]string{"ext": strconv.Itoa(ei), "state": strconv.Itoa(st), "stray_options": strayName}
 	defer func() { cs.Entry, cs.Opt = "", nil }()
 	c.Eval(gen.HashString(fkey+"\x00"+rt.Name+strconv.Itoa(ei*10+st)), nontrivial)
 	c.SetAdd("entries", rt.Name)
